@@ -139,13 +139,14 @@ def extract_facts(cfg, repo=None, target_dir=None, out=None, crates='saorsa_core
                 return out, th, False
         except Exception:
             pass
-    lock = open(os.path.join(CACHE, 'extract.lock'), 'w')
+    target_dir = target_dir or os.path.join(CACHE, 'target')
+    # one extraction at a time per cargo target directory (the self-test uses several target directories in parallel)
+    lock = open(os.path.join(CACHE, 'extract-%s.lock' % os.path.basename(target_dir.rstrip('/'))), 'w')
     fcntl.flock(lock, fcntl.LOCK_EX)
     try:
         if os.path.exists(out):
             return out, th, False
         build_driver()
-        target_dir = target_dir or os.path.join(CACHE, 'target')
         # cargo's freshness cache would skip the wrapper: drop the crate's fingerprints
         for fp in glob.glob(os.path.join(target_dir, 'debug', '.fingerprint', 'saorsa-core-*')):
             shutil.rmtree(fp, ignore_errors=True)
